@@ -153,8 +153,7 @@ func (r *Receiver) SegmentHandlerFunc(w http.ResponseWriter, req *http.Request) 
 				return fmt.Errorf("failed to process init segment: %w", err)
 			}
 		} else {
-			sr := bits.NewFixedSliceReader(cd.Data)
-			chunk, err := mp4.DecodeFileSR(sr, mp4.WithDecodeFlags(mp4.DecFileFlags(mp4.DecModeLazyMdat)))
+			chunk, err := decodeMP4(cd.Data, mp4.WithDecodeFlags(mp4.DecFileFlags(mp4.DecModeLazyMdat)))
 			if err != nil {
 				return fmt.Errorf("failed to decode chunk %d: %w", rsd.chunkNr, err)
 			}
@@ -165,9 +164,16 @@ func (r *Receiver) SegmentHandlerFunc(w http.ResponseWriter, req *http.Request) 
 			}
 			seg := chunk.Segments[0]
 			moof := seg.Fragments[0].Moof
+			if moof == nil || moof.Mfhd == nil || moof.Traf == nil || moof.Traf.Tfhd == nil ||
+				moof.Traf.Tfdt == nil || moof.Traf.Trun == nil {
+				return fmt.Errorf("chunk %d lacks moof, mfhd, traf, tfhd, tfdt or trun box", rsd.chunkNr)
+			}
 			trd, ok := ch.trDatas[trName]
 			if !ok {
 				return fmt.Errorf("failed to find track data trName: %s", trName)
+			}
+			if trd.init == nil || trd.init.Moov == nil || trd.init.Moov.Mvex == nil || trd.init.Moov.Mvex.Trex == nil {
+				return fmt.Errorf("no init segment with trex box for trName: %s", trName)
 			}
 			trex := trd.init.Moov.Mvex.Trex
 			*defaultDur = trex.DefaultSampleDuration
@@ -423,7 +429,6 @@ func findAndProcessOrigInitSegment(log *slog.Logger, ch *channel, stream stream)
 }
 
 func processInitSegment(log *slog.Logger, ch *channel, s stream, data []byte, isOrg bool) ([]byte, error) {
-	sr := bits.NewFixedSliceReader(data)
 	// Write original init segment to init_org.ext
 	if !isOrg {
 		origFilePath := filepath.Join(s.trDir, fmt.Sprintf("%s%s", "init_org", s.ext))
@@ -435,11 +440,14 @@ func processInitSegment(log *slog.Logger, ch *channel, s stream, data []byte, is
 			return nil, fmt.Errorf("failed to write original init segment: %w", err)
 		}
 	}
-	iSeg, err := mp4.DecodeFileSR(sr)
+	iSeg, err := decodeMP4(data)
 	if err != nil {
 		return nil, fmt.Errorf("failed to decode init segment: %w", err)
 	}
 	init := iSeg.Init
+	if init == nil || init.Moov == nil || init.Moov.Trak == nil {
+		return nil, fmt.Errorf("no init segment with a track found")
+	}
 	err = ch.addInitDataAndUpdateTimescale(s, init)
 	if err != nil {
 		return nil, fmt.Errorf("failed to addInitData: %w", err)
@@ -450,6 +458,17 @@ func processInitSegment(log *slog.Logger, ch *channel, s stream, data []byte, is
 		return nil, fmt.Errorf("failed to encode wvtt init segment: %w", err)
 	}
 	return sw.Bytes(), nil
+}
+
+// decodeMP4 decodes uploaded MP4 data. The decoder assumes a complete box hierarchy in some places
+// (e.g. the trak of a moov box), so a panic on malformed data is turned into an error.
+func decodeMP4(data []byte, options ...mp4.Option) (f *mp4.File, err error) {
+	defer func() {
+		if r := recover(); r != nil {
+			f, err = nil, fmt.Errorf("malformed MP4 data: %v", r)
+		}
+	}()
+	return mp4.DecodeFileSR(bits.NewFixedSliceReader(data), options...)
 }
 
 func handleMPD(w http.ResponseWriter, req *http.Request, storage, chName string) {
